@@ -596,6 +596,52 @@ theorem copy_independent_mixed (h : Heap) (U : Nat → Nat) (es : List Ev) (y : 
   exact ⟨oy', h1, (congrArg Obj.bufs h2 : oy'.erase.bufs = oy.erase.bufs), (congrArg Obj.views h2 : oy'.erase.views = oy.erase.views),
     (congrArg Obj.refs h2 : oy'.erase.refs = oy.erase.refs)⟩
 
+/-- `copy_independent_interleaved_partial` — **arbitrary interleavings of operations, grabs and releases on both objects**
+(neither side passive): in any admissible history, at every position, an event that is not aimed at `y` — while the user holds
+`y` — leaves `y` with the slots it has *at that moment* and observing what it observes *at that moment*, whatever was done to `y`
+itself before and whatever is done to it afterwards.  So what `y` observes changes only at `y`'s own events: the events on the
+other object (stores, reallocations, releases of its buffers, its destruction) can be deleted from the history without changing
+any single step of `y`'s.
+
+Full statement (projection), NOT proved: `view (runEvs h es) y = view (runEvs h (es.filter (·.target = y))) y`, i.e. `y` after the
+interleaving observes exactly what it observes after its own events alone.  Gap: `reallocSlot` takes buffer ids from a heap-wide
+counter, so the two runs differ by a renaming of `y`'s buffer ids; the step from "every foreign event preserves `y`'s part" (this
+theorem) to the projection needs that `applyOp` on `y` commutes with such renamings (an isomorphism argument over `writeSlot` /
+`reallocSlot` / `releaseSlot`) which is not done. -/
+theorem copy_independent_interleaved_partial (h : Heap) (U : Nat → Nat) (pre post : List Ev) (e : Ev) (y : Nat)
+    (hb : Balanced h U) (ha : Admissible U (pre ++ e :: post)) (hne : e.target ≠ y) (hu : 1 ≤ userAfter U pre y) :
+    view (runEvs h (pre ++ [e])) y = view (runEvs h pre) y ∧
+    ∃ oy oy', (runEvs h pre).objs y = some oy ∧ (runEvs h (pre ++ [e])).objs y = some oy' ∧
+      oy'.bufs = oy.bufs ∧ oy'.views = oy.views ∧ oy'.refs = oy.refs := by
+  have hsplit : ∀ (l : List Ev) (V : Nat → Nat) (r : List Ev), Admissible V (l ++ r) → Admissible V l ∧ Admissible (userAfter V l) r := by
+    intro l
+    induction l with
+    | nil => intro V r h; exact ⟨trivial, h⟩
+    | cons a l ih =>
+      intro V r h
+      obtain ⟨h1, h2⟩ := h
+      obtain ⟨h3, h4⟩ := ih (a.user V) r h2
+      exact ⟨⟨h1, h3⟩, h4⟩
+  obtain ⟨hpre, hrest⟩ := hsplit pre U (e :: post) ha
+  have hbp := runEvs_bal pre hb hpre
+  obtain ⟨hl, _⟩ := hbp.user_live hu
+  obtain ⟨oy, hoy⟩ := Option.isSome_iff_exists.mp hl
+  have hk := Ev.apply_keeps hbp e hrest.1 hoy hne hu
+  have hrun : runEvs h (pre ++ [e]) = e.apply (runEvs h pre) := by simp [runEvs, List.foldl_append]
+  rw [hrun]
+  refine ⟨view_of_keeps hbp hoy hk, ?_⟩
+  obtain ⟨oy', h1, h2, _⟩ := hk
+  exact ⟨oy, oy', hoy, h1, (congrArg Obj.bufs h2 : oy'.erase.bufs = oy.erase.bufs), (congrArg Obj.views h2 : oy'.erase.views = oy.erase.views),
+    (congrArg Obj.refs h2 : oy'.erase.refs = oy.erase.refs)⟩
+
+/-- instance: in `exEvs` the file (object 0) is grabbed in the middle of the reader's history; the reader's next reallocation leaves
+what the file observes at that moment unchanged, and the file's own later release is part of the same history -/
+example : view (runEvs exH ([.op 4 (.realloc 0 ⟨8, 8, 1⟩), .grab 0] ++ [.op 4 (.realloc 0 ⟨16, 9, 2⟩)])) 0 =
+    view (runEvs exH [.op 4 (.realloc 0 ⟨8, 8, 1⟩), .grab 0]) 0 := by
+  obtain ⟨U, hb, h0, _, h4, _⟩ := exH_balanced
+  exact (copy_independent_interleaved_partial exH U [.op 4 (.realloc 0 ⟨8, 8, 1⟩), .grab 0] [.drop 0, .drop 4] (.op 4 (.realloc 0 ⟨16, 9, 2⟩)) 0 hb
+    (by simp [Admissible, Ev.user, Ev.target, h4, h0]) (by decide) (by simp [userAfter, Ev.user, h0])).1
+
 /-- instance: through all of `exEvs` (which ends with the destruction of the reader) the user's file keeps its slots and is
 observed as before -/
 example : view (runEvs exH exEvs) 0 = view exH 0 := by
@@ -619,6 +665,22 @@ open Sqfs.C19R in
 /-- instance: a reader whose history cached a 6-byte block in a buffer of 8; two later reads -/
 example := copy_equiv_dataReader true ⟨10, fun i => UInt8.ofNat (i + 1), fun _ => false⟩ Sqfs.MetaReader.toyUnc toyUnc_bounded 8 []
   [.read ⟨6, 2, 0, 0, [16777222]⟩ 0 6] [.read ⟨6, 2, 0, 0, [16777222]⟩ 2 3, .read ⟨6, 2, 0, 0, [16777222]⟩ 0 6]
+
+open Sqfs.C19R in
+/-- `copy_equiv_dataReaderX`: the same for histories and later calls over **every entry point of `data_reader.c` that touches the
+caches** (C10's `OpX`): `sqfs_data_reader_read`, `sqfs_data_reader_get_fragment`, `get_buffered_data` / `advance_buffer` of
+streams created over the reader, and `sqfs_data_reader_load_fragment_table` (which drops the cached fragment block) — the copy
+hands back to every later call of any of them exactly what the original would: status, bytes, stream contents. -/
+theorem copy_equiv_dataReaderX (kw sfix : Bool) (f : MetaReader.File) (unc : MetaReader.Codec) (hc : CodecBounded unc)
+    (bs : Nat) (tbl : List (Nat × Nat)) (hist ops : List DataReader.OpX) :
+    drAnswersX kw sfix f unc (drCopy (DataReader.runX kw sfix f unc (DataReader.fresh bs tbl) hist)) ops =
+      drAnswersX kw sfix f unc (DataReader.runX kw sfix f unc (DataReader.fresh bs tbl) hist) ops := by
+  rw [drCopy_eq (cacheInv_runX hc hist _ (cacheInv_fresh bs tbl))]
+
+open Sqfs.C19R in
+/-- instance: a history with a read, a fragment access and a reload of the fragment table; then a fragment access and a read -/
+example := copy_equiv_dataReaderX true true ⟨10, fun i => UInt8.ofNat (i + 1), fun _ => false⟩ Sqfs.MetaReader.toyUnc toyUnc_bounded 8 [(0, 16777220)]
+  [.read ⟨6, 2, 0, 0, [16777222]⟩ 0 6, .frag ⟨3, 0, 0, 0, []⟩, .reload (.ok [(0, 16777220)])] [.frag ⟨3, 0, 0, 1, []⟩, .read ⟨6, 2, 0, 0, [16777222]⟩ 2 3]
 
 open Sqfs.C19R in
 /-- `copy_equiv_metaReader` — **definition-level** (`rfl`): the model `mrCopy` of `meta_reader_copy` copies every field (cursor,
